@@ -28,6 +28,10 @@ var c14templates = []string{
 	`<%= for (x) in items { %><%= x ~= "a" %><%= x ~= "[0-9]" %>,<% } %>`,
 	// a pattern never seen before in every execution (compiled for the first time while others run)
 	`<%= name ~= pat %>|<%= "zz" ~= pat %>|<%= for (x) in items { %><%= x ~= pat %><% } %>`,
+	// array and hash literals made of constants only, changed in place and grown by every execution
+	`<% let a = [1, 2, 3] %><% a = a + n %><% a[0] = n %><%= a[0] %>,<%= a[3] %>,<%= len(a) %>`,
+	`<% let a = [1, 2, 3, 4, 5] %><%= for (i) in [0, 1, 2] { %><% a[i] = a[i] + n %><% } %><% a = a + name %><%= a %>`,
+	`<% let h = {"k": 1, "j": "x"} %><% h["k"] = n %><% h[name] = n %><%= h["k"] %><%= len(h) %>`,
 	// a helper that fills defaults into the options map it is given, called WITHOUT options
 	`<%= tagopt(name) %>|<%= tagopt("x" + name) %>|<%= tagopt(name, {id: "mine"}) %>`,
 }
